@@ -672,7 +672,8 @@ class SwitchController(MpfController):
                     next_event_time = k
 
         self.machine.events.process_event_queue()
-        if next_event_time:
+        # a handler called above may have added another timed handler, which already scheduled the next wake-up
+        if next_event_time and switch not in self._timed_switch_handler_delay:
             handler = self.machine.clock.loop.call_at(
                 next_event_time,
                 partial(self._process_active_timed_switches, switch))
